@@ -256,3 +256,89 @@ var C12URI = Register(&Check[CaseURI2]{
 		return ok(e0 == 0 && e1 == 0)
 	},
 })
+
+// ---------- small-scope history enumeration ----------
+
+// c12Scopes: for each listed parser kind, every (abandoned or completed first use over a short
+// string, Reset/Init, probe string) triple over the kind's delimiter alphabet.
+type c12Scope struct {
+	cfg      Cfg
+	alphabet []string
+	prefix   string
+	useLen   int // symbols in the first use
+	probeLen int // symbols in the probe
+}
+
+func c12ScopeList(depth int) []c12Scope {
+	tokA := []string{"a", "=", ";", ",", " ", "\r\n", "\"", "&"}
+	naA := []string{"a", "<", ">", "\"", ";", "=", ",", " ", "\r\n", "*"}
+	hbA := []string{"a", "m", ":", " ", "\r\n", ",", "<", ">"}
+	semi := uint(sipsp.POptParamSemiSepF)
+	var s []c12Scope
+	for _, cap := range []int{-1, 0, 1} {
+		s = append(s, c12Scope{cfg: withCaps(withFlags(scopeCfg(KURIParams), uint(sipsp.POptTokURIParamF), true), -1, -1, cap), alphabet: tokA, useLen: 2 + depth, probeLen: 3 + depth})
+		s = append(s, c12Scope{cfg: withCaps(withFlags(scopeCfg(KURIHdrs), uint(sipsp.POptTokURIHdrF), true), -1, -1, cap), alphabet: tokA, useLen: 2 + depth, probeLen: 3 + depth})
+		s = append(s, c12Scope{cfg: withCaps(scopeCfg(KContacts), -1, cap, -1), alphabet: naA, prefix: "<a>", useLen: 2, probeLen: 3 + depth})
+		s = append(s, c12Scope{cfg: withCaps(scopeCfg(KHeaders), cap, cap, -1), alphabet: hbA, useLen: 2 + depth, probeLen: 3 + depth})
+		s = append(s, c12Scope{cfg: withCaps(scopeCfg(KMsg), cap, cap, -1), alphabet: hbA, prefix: "A b c\r\n", useLen: 2 + depth, probeLen: 2 + depth})
+	}
+	s = append(s, c12Scope{cfg: withFlags(scopeCfg(KTokParam), semi, false), alphabet: tokA, useLen: 2 + depth, probeLen: 3 + depth})
+	s = append(s, c12Scope{cfg: withHType(scopeCfg(KNameAddr), sipsp.HdrContact), alphabet: naA, useLen: 2 + depth, probeLen: 3 + depth})
+	s = append(s, c12Scope{cfg: scopeCfg(KPAIs), alphabet: naA, prefix: "<a>", useLen: 2, probeLen: 3 + depth})
+	s = append(s, c12Scope{cfg: scopeCfg(KHdrLinePV), alphabet: hbA, useLen: 2 + depth, probeLen: 3 + depth})
+	s = append(s, c12Scope{cfg: scopeCfg(KCSeq), alphabet: []string{"1", "a", " ", "\r\n"}, useLen: 4, probeLen: 4 + depth})
+	s = append(s, c12Scope{cfg: scopeCfg(KFLine), alphabet: []string{"S", "a", " ", "\r\n", "1"}, prefix: "SIP/2.0 20", useLen: 3, probeLen: 3 + depth})
+	return s
+}
+
+func (sc c12Scope) desc() string {
+	return fmt.Sprintf("%s caps=%d/%d/%d: every first use of <= %d symbols (abandoned after each prefix, or run to the end) x Reset and Init x every probe of <= %d symbols over %q behind %q",
+		sc.cfg.Kind, sc.cfg.HdrCap, sc.cfg.CtCap, sc.cfg.PCap, sc.useLen, sc.probeLen, sc.alphabet, sc.prefix)
+}
+
+// produce enumerates the histories of one shard (= one first-use string index).
+func (sc c12Scope) produce(shard, nshards int, emit func(CaseReset) bool) {
+	var strs func(n int) [][]byte
+	strs = func(n int) [][]byte {
+		out := [][]byte{[]byte(sc.prefix)}
+		cur := [][]byte{[]byte(sc.prefix)}
+		for l := 0; l < n; l++ {
+			var next [][]byte
+			for _, c := range cur {
+				for _, a := range sc.alphabet {
+					next = append(next, append(append([]byte{}, c...), a...))
+				}
+			}
+			out = append(out, next...)
+			cur = next
+		}
+		return out
+	}
+	uses := strs(sc.useLen)
+	probes := strs(sc.probeLen)
+	for ui, u := range uses {
+		if ui%nshards != shard {
+			continue
+		}
+		for cut := 0; cut <= len(u); cut++ {
+			op := Op{Buf: append(B{}, u...), Flags: sc.cfg.Flags}
+			if cut < len(u) {
+				if cut == 0 {
+					continue
+				}
+				op.Sched = []int{cut}
+				op.Abandon = 1
+			}
+			for _, useInit := range []bool{false, true} {
+				op.UseInit = useInit
+				for _, p := range probes {
+					if !emit(CaseReset{Cfg: sc.cfg, Ops: []Op{op}, Probe: append(B{}, p...)}) {
+						return
+					}
+				}
+			}
+		}
+	}
+}
+
+var C12Scope = Register(&Check[CaseReset]{Prop: "C12", Name: "C12.scope", Eval: evalReset})
